@@ -158,6 +158,28 @@ def run(ctx):
     ctx.require(not bad, "R-C18-2", "matrix-source", "neighbours and weights come from the de-duplicated neighbour API and the edge store (%s)" % sorted(srcs & {"get_successors_or_neighbors", "get_edge", "get_edges", "get_all_edges", "get_neighbor_nodes", "get_successor_nodes", "get_sparse_adjacency_matrix"}), "eigenvector_centrality walks the raw adjacency list at %s: that list repeats a neighbour for an undirected self-loop and holds one policy weight per pair, so the matrix entry becomes 2w (or the minimum of parallel weights) instead of the stored edge's weight" % bad[:2], loc_str(b.span))
 
     # ------------------------------------------------------------------ R-C18-3
+    # R-C18-5: "normalise" means: divide by the Euclidean norm.  The norm may be replaced by a constant only when it is
+    # zero; flooring / capping it (max, min, clamp) leaves vectors of norm below the floor un-normalised
+    ctx.rule("R-C18-5", "the divisor of the normalisation step is the norm itself (sqrt of the sum of squares), not passed through max / min / clamp")
+    ec5 = prog.one("eigenvector::eigenvector_centrality")
+    n5 = 0
+    for b5 in [ec5] + list(prog.closures_of(ec5.path)):
+        f5 = flows.of(b5)
+        for st5 in b5.stmts():
+            if st5.k == "assign" and st5.rv.k == "binop" and st5.rv.j["op"] == "Div" and (st5.rv.ops[1].place is not None and st5.rv.ops[1].place.ty == "f64"):
+                sl5 = flows.slice(b5.path, f5._op_reads(st5.rv.ops[1]), up=True, down=False, data_only=True, roots=(ec5.path,))
+                cal5 = set()
+                for (bp5, nd5) in sl5:
+                    if nd5[0] == "CALL":
+                        t5 = prog.bodies[bp5].blocks[nd5[1]].term
+                        if t5.callee:
+                            cal5.add(t5.callee.short.split("::")[-1])
+                if "sqrt" not in cal5:
+                    continue
+                n5 += 1
+                lim5 = sorted(cal5 & {"max", "min", "clamp", "floor", "ceil", "round", "abs", "recip"})
+                ctx.require(not lim5, "R-C18-5", "norm|%s" % b5.short.split("::{closure")[0], "the vector is divided by sqrt(sum of squares)", "the divisor of the normalisation passes through %s: a vector whose norm lies on the other side of that bound is returned un-normalised (norm != 1), and the convergence test then compares un-normalised vectors" % lim5, loc_str(st5.span))
+    ctx.floor("R-C18-5", "normalising_divisions", n5, 1)
     # R-C18-4: the iteration walks the index-keyed adjacency maps (get_successors_or_neighbors); an entry of those maps
     # must never be replaced by a fresh one for a node that already has edges
     from graphrules import adjacency_entries_only_for_new_nodes
